@@ -302,6 +302,8 @@ def run_task(task, tr):
         return device_task(task, tr)
     if task[0] == 'history':
         return history_task(task, tr)
+    if task[0] == 'inplace':
+        return inplace_task(task, tr)
     _, topology, n, kind, batched = task
     cls = tht.GeneralNodeHeightTransform if kind == 'ratio' else tht.DifferenceNodeHeightTransform
     tr.fn(cls._call, cls._inverse, tm.TimeTreeModel.branch_lengths, tm.ReparameterizedTimeTreeModel.update_node_heights,
@@ -764,8 +766,9 @@ def history_task(task, tr):
                               'the sample shape [] <-> [2]}; every read of every history is checked; fresh symbols per write; '
                               'trees: all topologies n=3, caterpillar+balanced n=4 (quick) / all n<=4, two n=5 (thorough)')
     tr.assumptions.add('histories: writes go through the Parameter.tensor / CatParameter.tensor setters (the routes that notify '
-                       'listeners); in-place edits of a tensor behind the model (Parameter.copy_, tensor[...] = v) notify nobody '
-                       'by design and are outside the histories')
+                       'listeners by themselves); in-place edits of the tensor a Parameter keeps (tensor[...] = v, add_/mul_/copy_, '
+                       'Parameter.copy_, ViewParameter setter) followed by fire_parameter_changed() are the in-place histories; an '
+                       'in-place edit that is never announced notifies nobody by design and is outside both')
     tr.assumptions.add('histories: ReparameterizedTimeTreeModel.handle_model_changed is not reachable through any write (a tree '
                        'model holds parameters only, no sub-model ever notifies it); the histories exercise '
                        'handle_parameter_changed, directly and through CatParameter')
@@ -782,16 +785,22 @@ def history_task(task, tr):
         tr.sample(s)
     # verdict policy of symtorch.explore.triage; the replay runs every history of the skeleton on plain tensors
     extra = {'topology': cm.to_newick(topology), 'n': n, 'kind': kind, 'skeleton': pattern, 'toggles': toggles}
+    history_verdicts(out, body.state['failed'], lambda vals, focus: h_replay(topology, n, kind, pattern, toggles, vals, focus),
+                     tr, label, extra, H_READ_NAME)
+
+
+def history_verdicts(out, guard_failed, replay, tr, label, extra, read_name):
+    """replay(values, focus) -> (separates, detail, history) runs every history of the task on plain tensors"""
     sigs = set()
     from symtorch.explore import _to_float
 
     for g, model, k, witness in out.failed:
         vals = {a: _to_float(b) for a, b in model.items() if b is not None}
         focus = g.signature.split(':')[-1]
-        ok, detail, hist = h_replay(topology, n, kind, pattern, toggles, vals, focus)
+        ok, detail, hist = replay(vals, focus)
         where = vals
         if not ok:
-            ok, detail, hist = h_replay(topology, n, kind, pattern, toggles, witness, focus)
+            ok, detail, hist = replay(witness, focus)
             where = witness
         if ok:
             if g.signature not in sigs:
@@ -800,7 +809,7 @@ def history_task(task, tr):
         else:
             tr.inconc(f'{label}: solver counterexample for "{g.label}" did not reproduce on the real code')
     for lab, detail, witness in out.unknown:
-        ok, d2, hist = h_replay(topology, n, kind, pattern, toggles, witness, lab.split(':')[-1])
+        ok, d2, hist = replay(witness, lab.split(':')[-1])
         if ok:
             if lab not in sigs:
                 sigs.add(lab)
@@ -808,12 +817,547 @@ def history_task(task, tr):
                              dict(extra, values=witness, history=hist))
         else:
             tr.inconc(f'{label}: {lab} undecided ({detail})')
-    for w, r, st in body.state['failed']:
-        msg = f'{label}: vacuity guard: write "{w}" does not change what the next {H_READ_NAME[r]} read returns ({st})'
-        if any(sg.endswith(':' + H_READ_NAME[r]) for sg in sigs):
+    for w, r, st in guard_failed:
+        msg = f'{label}: vacuity guard: write "{w}" does not change what the next {read_name[r]} read returns ({st})'
+        if any(sg.endswith(':' + read_name[r]) for sg in sigs):
             tr.notes.append(msg + ' - the stale read reported as violation')
         else:
             tr.inconc(msg)
+
+
+# ------------------------------------------------------------------ in-place update histories
+# The optimiser idiom does not assign a new tensor: it keeps the tensor OBJECT a Parameter holds, writes into it
+# (`p.tensor[...] = v`, `p.tensor.add_()/mul_()/copy_()`, `Parameter.copy_`, the ViewParameter setter) and announces the
+# change with fire_parameter_changed().  Whatever is keyed on tensor identity (torch.distributions' Transform
+# cache_size=1, `is` comparisons) is then stale although every flag was raised.  Under symtorch an in-place write keeps
+# the SymTensor object, so identity-keyed memoisation behaves as it does with real tensors.  The harness keeps its
+# own functional copy of every parameter (out-of-place arithmetic on tensors the model never sees); every read is
+# compared with the independent recursion on that copy AND with a freshly built model that is handed the copy.
+IP_READS = ('nh', 'bl', 'call', 'inv')
+IP_READ_NAME = dict(H_READ_NAME, inv='inverse')
+IP_PARAM_NAME = {'x': 'shifts', 'r': 'ratios', 'root': 'root_height', 'p': 'ratios_root_height'}
+IP_SET = ('assign', 'setitem', 'copy_', 'pcopy_', 'view')  # kinds of write that store fresh symbols
+
+
+def ip_spec(kind, n):
+    """parameters [(name, element tags)] and write alphabet [(label, parameter, slice | None, how)] of a model kind:
+    'shift' = increments; 'ratio' = ratios and root height as two Parameters (from_json joins them in a CatParameter);
+    'ratio1' = ONE Parameter handed to the public constructor as ratios_root_height"""
+    if kind == 'shift':
+        params = [('x', ['x'] * (n - 1))]
+        ops = [('x', None, h) for h in ('assign', 'setitem', 'add_', 'mul_', 'copy_', 'pcopy_')]
+        ops += [('x', slice(0, 1), h) for h in ('setitem', 'add_', 'view')]
+    elif kind == 'ratio':
+        params = [('r', ['r'] * (n - 2)), ('root', ['root'])]
+        ops = [('r', None, h) for h in ('assign', 'setitem', 'mul_', 'muladd_', 'copy_', 'pcopy_')]
+        ops += [('r', slice(0, 1), 'view')]
+        ops += [('root', None, h) for h in ('assign', 'setitem', 'add_', 'mul_', 'copy_', 'pcopy_')]
+        ops += [('root', slice(0, 1), 'view')]
+    else:
+        params = [('p', ['r'] * (n - 2) + ['root'])]
+        ops = [('p', None, h) for h in ('assign', 'setitem', 'mul_', 'copy_', 'pcopy_')]
+        ops += [('p', slice(0, n - 2), h) for h in ('setitem', 'muladd_', 'view')]
+        ops += [('p', slice(n - 2, n - 1), h) for h in ('setitem', 'add_', 'view')]
+    return params, [(ip_label(*o), *o) for o in ops]
+
+
+def ip_label(pname, sl, how):
+    nm = IP_PARAM_NAME[pname]
+    at = '...' if sl is None else f'..., {sl.start}:{sl.stop}'
+    return {'assign': f'{nm}.tensor = v',
+            'setitem': f'{nm}.tensor[{at}] = v; fire',
+            'add_': f'{nm}.tensor[{at}].add_(d); fire',
+            'mul_': f'{nm}.tensor[{at}].mul_(f); fire',
+            'muladd_': f'{nm}.tensor[{at}].mul_(0.5).add_(d); fire',
+            'copy_': f'{nm}.tensor.copy_(v); fire',
+            'pcopy_': f'{nm}.copy_(v); fire',
+            'view': f'ViewParameter({nm}, {at[5:]}).tensor = v'}[how]
+
+
+def ip_build(topology, n, kind):
+    """-> (model, {parameter name: Parameter}, {(parameter name, start, stop): ViewParameter})"""
+    from torchtree.core.parameter import Parameter, ViewParameter
+
+    params, ops = ip_spec(kind, n)
+    if kind == 'ratio1':
+        # the public constructor with a single plain Parameter (what a user who does not go through JSON writes)
+        from torchtree.core.utils import process_object
+        from torchtree.evolution.tree_model import ReparameterizedTimeTreeModel, initialize_dates_from_taxa, parse_tree
+
+        taxa = process_object(cm.taxa_json(n), {})
+        dtree = parse_tree(taxa, {'newick': cm.to_newick(topology)})
+        initialize_dates_from_taxa(dtree, taxa)
+        P = Parameter('tree.ratios_root_height', torch.tensor([0.5] * (n - 2) + [10.0], dtype=torch.float64))
+        tree = ReparameterizedTimeTreeModel('tree', dtree, taxa, ratios_root_height=P)
+        held = {'p': P}
+    else:
+        tree, dic = build_model(topology, n, kind)
+        held = {'x': dic['tree.shifts']} if kind == 'shift' else {'r': dic['tree.ratios'], 'root': dic['tree.root_height']}
+    views = {}
+    for _, pname, sl, how in ops:
+        if how == 'view':
+            views[(pname, sl.start, sl.stop)] = ViewParameter(f'view.{pname}.{sl.start}', held[pname], sl)
+    return tree, held, views
+
+
+def ip_parts(kind, shadow):
+    """the parameterisation's own view of the harness copy: part -> tensor"""
+    if kind == 'shift':
+        return {'x': shadow['x']}
+    if kind == 'ratio':
+        return {'r': shadow['r'], 'root': shadow['root']}
+    return {'r': shadow['p'][..., :-1], 'root': shadow['p'][..., -1:]}
+
+
+def ip_read(tree, n, op):
+    if op == 'bl':
+        return tree.branch_lengths()
+    if op == 'nh':
+        return tree.node_heights
+    if op == 'call':
+        return tree()
+    return tree.transform.inv(tree.node_heights[..., n:])
+
+
+def ip_execute(topology, n, kind, hist, S, value, on_read):
+    """Run one history on the REAL model.  value(role, parameter, epoch) -> full-width tensor of the symbols (or numbers)
+    of that epoch: role 'v' = value to store, 'd' = increment, 'f' = factor.  on_read(k, op, returned value, copy) with
+    copy = the harness's functional copy {parameter: tensor}.  Serves the symbolic run and the concrete replay."""
+    tree, held, views = ip_build(topology, n, kind)
+    tree.sampling_times = S
+    if hasattr(tree.transform, 'update_bounds'):
+        tree.transform.update_bounds()
+    shadow = {}
+    for pname, P in held.items():
+        v = value('v', pname, 0)
+        P.tensor = v
+        shadow[pname] = v.clone()
+    epoch = 0
+    for k, op in enumerate(hist):
+        if op in IP_READS:
+            on_read(k, op, ip_read(tree, n, op), dict(shadow))
+            continue
+        epoch += 1
+        _, pname, sl, how = op
+        P = held[pname]
+        old = shadow[pname]
+
+        def reg(t):
+            return t if sl is None else t[..., sl]
+
+        if how in IP_SET:
+            v = reg(value('v', pname, epoch))
+            new = v.clone()
+            if how == 'assign':
+                P.tensor = v
+            elif how == 'view':
+                views[(pname, sl.start, sl.stop)].tensor = v  # the setter writes into the parent's tensor and fires
+            else:
+                if how == 'setitem':
+                    if sl is None:
+                        P.tensor[...] = v
+                    else:
+                        P.tensor[..., sl] = v
+                elif how == 'copy_':
+                    P.tensor.copy_(v)
+                else:
+                    P.copy_(v)
+                P.fire_parameter_changed()
+        else:
+            target = reg(P.tensor)  # a view: the write below lands in the tensor object the Parameter keeps
+            if how == 'add_':
+                dl = reg(value('d', pname, epoch))
+                target.add_(dl)
+                new = reg(old) + dl
+            elif how == 'mul_':
+                f = reg(value('f', pname, epoch))
+                target.mul_(f)
+                new = reg(old) * f
+            else:
+                dl = reg(value('d', pname, epoch))
+                target.mul_(0.5).add_(dl)
+                new = reg(old) * 0.5 + dl
+            P.fire_parameter_changed()
+        shadow[pname] = new if sl is None else torch.cat((old[..., :sl.start], new, old[..., sl.stop:]), -1)
+
+
+def ip_histories(kind, n, pattern, chunk=None):
+    import itertools
+
+    ops = ip_spec(kind, n)[1]
+    hs = list(itertools.product(*[(IP_READS if c == 'R' else ops) for c in pattern]))
+    if chunk is not None:
+        i, m = chunk
+        hs = hs[i::m]
+    return hs
+
+
+IP_READ_SHOW = {'nh': 'read node_heights', 'bl': 'read branch_lengths()', 'call': 'read model()',
+                'inv': 'read transform.inv(node_heights[n:])'}
+
+
+def ip_show(hist):
+    return ' ; '.join(IP_READ_SHOW[o] if isinstance(o, str) else o[0] for o in hist)
+
+
+def ip_variables(n, kind, pattern, batched):
+    """-> (name -> generic witness, name -> (role, element tag)) for every symbol a history of the skeleton can use"""
+    W = {f's{i}': 0.3 * i for i in range(n)}
+    tags = {}
+    for pname, et in ip_spec(kind, n)[0]:
+        for e in range(pattern.count('W') + 1):
+            for b in range(2 if batched else 1):
+                off = 0.07 * e + 0.03 * b
+                for j, tag in enumerate(et):
+                    for role in ('v', 'd', 'f') if e else ('v',):
+                        name = f'{role}{pname}{e}_{b}_{j}'
+                        tags[name] = (role, tag)
+                        W[name] = {('v', 'x'): 0.7 + 0.2 * j + off, ('d', 'x'): 0.11 + 0.05 * j + off,
+                                   ('f', 'x'): 1.3 + 0.1 * j + off,
+                                   ('v', 'r'): 0.3 + 0.1 * j + off, ('d', 'r'): 0.05 + 0.04 * j + off / 2,
+                                   ('f', 'r'): 0.6 + 0.05 * j + off / 2,
+                                   ('v', 'root'): 5.0 + 10 * off, ('d', 'root'): 0.9 + off, ('f', 'root'): 1.5 + off}[(role, tag)]
+    return W, tags
+
+
+def ip_domain(n, tags, sorted_times=False):
+    """sampling times >= 0 (sorted_times: only the ordering s0 <= s1 <= ... of them); stored values: increments > 0, ratios in (0,1), root height above every tip; in-place steps that keep them there:
+    increments / root height: add_(d > 0), mul_(f > 0 resp. f > 1); ratios: mul_(f in (0,1)), mul_(1/2).add_(d in (0,1/2))"""
+    def domain(d, V):
+        cs = [d.le(0, V[f's{i}']) for i in range(n)]
+        if sorted_times:
+            cs += [d.le(V[f's{i}'], V[f's{i + 1}']) for i in range(n - 1)]
+        for name, rt in tags.items():
+            v = V[name]
+            if rt == ('v', 'root'):
+                cs += [d.lt(V[f's{i}'], v) for i in range(n)]
+            elif rt in (('v', 'r'), ('f', 'r')):
+                cs += [d.lt(0, v), d.lt(v, 1)]
+            elif rt == ('d', 'r'):
+                cs += [d.lt(0, v), d.lt(v, d.const(0.5))]
+            elif rt == ('f', 'root'):
+                cs.append(d.lt(1, v))
+            else:
+                cs.append(d.lt(0, v))
+        return cs
+
+    return domain
+
+
+def ip_body(topology, n, kind, batched, hists, tr):
+    import contextlib
+
+    from symtorch.ext_c06 import lazy_pair_max
+
+    root, children = index_tree(topology, n)
+    parent = {c: p for p, cs in children.items() for c in cs}
+    okind = 'shift' if kind == 'shift' else 'ratio'
+    B = 2 if batched else 1
+    widths = {pname: len(et) for pname, et in ip_spec(kind, n)[0]}
+    guard_state = {'done': False, 'failed': []}
+
+    def body(t, V, W):
+        d = t.dag
+        S = [V[f's{i}'] for i in range(n)]
+        conj, broken, oracle_cache, fresh_cache, effects, in_force = {}, {}, {}, {}, {}, {}
+
+        def value(role, pname, e):
+            rows = [[V[f'{role}{pname}{e}_{b}_{j}'] for j in range(widths[pname])] for b in range(B)]
+            return from_ids(torch.tensor(rows if batched else rows[0], dtype=torch.int64))
+
+        def fresh(copy):
+            """what a model built from scratch and handed the current parameter values returns"""
+            key = tuple((p, tuple(c._ids.reshape(-1).tolist())) for p, c in sorted(copy.items()))
+            if key not in fresh_cache:
+                tree, held, _ = ip_build(topology, n, kind)
+                tree.sampling_times = cm.var_tensor(V, [f's{i}' for i in range(n)])
+                if hasattr(tree.transform, 'update_bounds'):
+                    tree.transform.update_bounds()
+                for pname, P in held.items():
+                    P.tensor = copy[pname].clone()
+                fresh_cache[key] = {op: ip_read(tree, n, op) for op in ('nh', 'bl', 'call')}
+            return fresh_cache[key]
+
+        def ids(x):
+            return x._ids.reshape(-1).tolist() if isinstance(x, SymTensor) else [d.const(float(v)) for v in x.reshape(-1).tolist()]
+
+        for hist in hists:
+            last = {}
+
+            def on_read(k, op, got, copy, hist=hist, last=last):
+                width = {'bl': 2 * n - 2, 'nh': 2 * n - 1, 'inv': n - 1}.get(op)
+                want = ((2,) if batched else ()) + ((width,) if width else ())
+                if tuple(got.shape) != want:
+                    broken.setdefault(f'{IP_READ_NAME[op]}-shape', (f'operation {k} ({op}) returns shape {tuple(got.shape)}, the '
+                                                                     f'parameters in force have sample shape {want[:len(want) - (1 if width else 0)]}', hist))
+                    return
+                eqs = conj.setdefault(op, {})
+                if op != 'call' and isinstance(got, SymTensor):
+                    flat = got._ids.reshape(-1).tolist()
+                    if op in last and last[op][0] == k - 2 and not isinstance(hist[k - 1], str):
+                        effects.setdefault((hist[k - 1][0], op), d.and_(*[d.eq(a, b_) for a, b_ in zip(last[op][1], flat)]))
+                    last[op] = (k, flat)
+                parts = ip_parts(kind, copy)
+                new = []
+                for b in range(B):
+                    row = {p: (c[b] if batched else c)._ids.tolist() for p, c in parts.items()}
+                    key = tuple((p, tuple(v)) for p, v in sorted(row.items()))
+                    if key not in oracle_cache:
+                        oracle_cache[key] = h_oracle(d, n, root, children, okind, S, row)
+                        for p, v in row.items():
+                            for e_ in v:
+                                in_force.setdefault(e_, p)
+                    oh, jac = oracle_cache[key]
+                    g = ids(got[b] if batched else got)
+                    if op == 'nh':
+                        new += [d.eq(g[v], oh[v]) for v in range(2 * n - 1)]
+                        new += [d.le(g[c], g[p]) for c, p in parent.items()]
+                    elif op == 'bl':
+                        new += [d.eq(g[c], d.sub(oh[p], oh[c])) for c, p in parent.items()]
+                    elif op == 'call':
+                        new.append(d.eq(g[0], jac))
+                    else:
+                        cur = row['x'] if kind == 'shift' else row['r'] + row['root']
+                        new += [d.eq(a, b_) for a, b_ in zip(g, cur)]
+                if op != 'inv':
+                    new += [d.eq(a, b_) for a, b_ in zip(ids(got), ids(fresh(copy)[op]))]
+                for e_ in new:
+                    if e_ != d.TRUE:
+                        eqs.setdefault(e_, hist)
+                tr.evaluations += len(new)
+
+            try:
+                with (lazy_pair_max() if kind == 'shift' else contextlib.nullcontext()):
+                    ip_execute(topology, n, kind, hist, cm.var_tensor(V, [f's{i}' for i in range(n)]), value, on_read)
+            except Exception as e:
+                if type(e).__name__ in ('UnsupportedOp', 'EngineError'):
+                    raise
+                broken.setdefault('raises', (f'raises {type(e).__name__}: {e}', hist))
+        goals = []
+        from symtorch.axioms import ground_axioms as _ga
+
+        if effects and not guard_state['done']:
+            # vacuity guard (solver): a write must be able to change what the next read returns (`sat` expected)
+            from symtorch.explore import prove
+
+            guard_state['done'] = True
+            hyps = body.domain(d, V) + list(t.pcs)
+            for (w, r), same in sorted(effects.items()):
+                st, _, _ = prove(d, hyps, same, timeout=20.0, tr=tr, label=f'vacuity guard {w}/{r}')
+                if st != 'refuted':
+                    guard_state['failed'].append((w, r, st))
+        what = {'nh': 'every node_heights read == tips at their sampling times, documented recursion on the parameter values '
+                      'in force, parent >= child, == fresh model',
+                'bl': 'every branch_lengths() read == parent height - child height of the parameter values in force, == fresh model',
+                'call': 'every model() read == log|det J| of the parameter values in force, == fresh model',
+                'inv': 'every transform.inv(node_heights[n:]) read == the parameter values in force'}
+        # A parameter value put in force by an in-place step is an expression (x + d, (r/2 + d) * f, ...).  No obligation of a
+        # read depends on HOW the value in force came about, so every such expression is generalised to a fresh variable
+        # that is only known to be a valid parameter value (sound: a proof of the generalised statement is a proof of every
+        # instance); that the expressions ARE valid parameter values is a goal of its own.  A stale read still mentions the
+        # symbols of an earlier state and is refuted exactly as before.
+        def valid(e_, part):
+            if part == 'root':
+                return [d.lt(s_, e_) for s_ in S]
+            return [d.lt(0, e_)] + ([d.lt(e_, 1)] if part == 'r' else [])
+
+        compound = {e_: p for e_, p in in_force.items() if d.ops[e_] != 'var'}
+        mapping = {e_: t.fresh('inforce', d.vals[e_]) for e_ in compound}
+        gen_hyps = [c for e_, p in compound.items() for c in valid(mapping[e_], p)]
+        if compound:
+            goals.append(Goal(f'harness: the {len(compound)} distinct expressions that in-place steps put in force are valid parameter '
+                              f'values (increments > 0, ratios in (0,1), root height above every tip)',
+                              d.and_(*[c for e_, p in compound.items() for c in valid(e_, p)]),
+                              signature=f'{kind}:inplace:harness-state'))
+        # the generalised formulas are new terms: their own divisions / logarithms must be well defined for every valid
+        # parameter value (the engine encodes a/b through an inverse of b and leaves b != 0 as an obligation), which the
+        # explorer's own well-definedness query - it does not know the fresh variables are valid values - cannot show
+        dens, doms = [], []
+        hooks = (d.on_denominator, d.on_domain)
+        d.on_denominator, d.on_domain = dens.append, (lambda k_, x_: doms.append((k_, x_)) if d.ops[x_] != 'const' else None)
+        try:
+            for op in IP_READS:
+                eqs = conj.get(op, {})
+                if not eqs:
+                    if op in conj:
+                        tr.obligation(f'trivial:{kind}:{op}', nontrivial=False)
+                    continue
+                node = d.and_(*eqs)
+                if mapping:
+                    node = d.substitute([node], mapping)[0]
+                goals.append(Goal(f'[{len(eqs)} distinct non-trivial equations from {len(hists)} in-place histories] {what[op]}', node,
+                                  hyps=gen_hyps + (_ga(d, [node]) if op == 'call' and kind != 'shift' else []),
+                                  signature=f'{kind}:inplace:{IP_READ_NAME[op]}'))
+            wd = [d.not_(d.eq(b_, 0)) for b_ in dict.fromkeys(dens)]
+            wd += [d.lt(0, x_) if k_ == 'pos' else d.le(0, x_) for k_, x_ in dict.fromkeys(doms)]
+            if wd:
+                wdn = d.and_(*wd)
+                goals.append(Goal(f'harness: the {len(wd)} divisions / logarithms of the generalised read obligations are well defined '
+                                  f'for every valid parameter value', wdn, hyps=gen_hyps + _ga(d, [wdn]),
+                                  signature=f'{kind}:inplace:harness-defined'))
+        finally:
+            d.on_denominator, d.on_domain = hooks
+        for suffix, (desc, hist) in broken.items():
+            goals.append(Goal(f'history {ip_show(hist)}: {desc}', d.FALSE, signature=f'{kind}:inplace:{suffix}'))
+        return goals
+
+    body.state = guard_state
+    return body
+
+
+def ip_replay(topology, n, kind, batched, hists, W, vals, focus=None):
+    """every history of the task on plain tensors against the float recursion; -> (separates, detail, history)"""
+    root, children = index_tree(topology, n)
+    parent = {c: p for p, cs in children.items() for c in cs}
+    okind = 'shift' if kind == 'shift' else 'ratio'
+    widths = {pname: len(et) for pname, et in ip_spec(kind, n)[0]}
+    B = 2 if batched else 1
+    get = lambda name: float(vals.get(name, W.get(name, 0.5)))  # noqa: E731
+    Sf = [get(f's{i}') for i in range(n)]
+    tol = 1e-9
+
+    def value(role, pname, e):
+        rows = [[get(f'{role}{pname}{e}_{b}_{j}') for j in range(widths[pname])] for b in range(B)]
+        return torch.tensor(rows if batched else rows[0], dtype=torch.float64)
+
+    for hist in hists:
+        found = []
+
+        def on_read(k, op, got, copy):
+            if found:
+                return
+            width = {'bl': 2 * n - 2, 'nh': 2 * n - 1, 'inv': n - 1}.get(op)
+            want = ((2,) if batched else ()) + ((width,) if width else ())
+            name = IP_READ_NAME[op]
+            if tuple(got.shape) != want:
+                if focus in (None, name + '-shape'):
+                    found.append(f'operation {k} ({name}) returns shape {tuple(got.shape)}, expected {want}')
+                return
+            if focus not in (None, name):
+                return
+            parts = ip_parts(kind, copy)
+            for b in range(B):
+                row = {p: (c[b] if batched else c).tolist() for p, c in parts.items()}
+                oh, jac = h_oracle_float(n, root, children, okind, Sf, row)
+                g = (got[b] if batched else got).reshape(-1).tolist()
+                sc = max(1.0, max(abs(v) for v in oh.values()))
+                if op == 'nh':
+                    for v in range(2 * n - 1):
+                        if not abs(g[v] - oh[v]) <= tol * sc:
+                            found.append(f'operation {k} (node_heights): node {v} at {g[v]}, the parameter values in force '
+                                         f'put it at {oh[v]}' + (' (its sampling time)' if v < n else ''))
+                            return
+                    for c, p in parent.items():
+                        if g[p] < g[c] - tol * sc:
+                            found.append(f'operation {k} (node_heights): parent {p} ({g[p]}) younger than child {c} ({g[c]})')
+                            return
+                elif op == 'bl':
+                    for c, p in parent.items():
+                        if not abs(g[c] - (oh[p] - oh[c])) <= tol * sc:
+                            found.append(f'operation {k} (branch_lengths): branch {c} = {g[c]} but parent height - child '
+                                         f'height = {oh[p] - oh[c]} for the parameter values in force')
+                            return
+                elif op == 'call':
+                    if not abs(g[0] - jac) <= 1e-8 * max(1.0, abs(jac)):
+                        found.append(f'operation {k} (model()): {g[0]} but log|det J| = {jac} for the parameter values in force')
+                        return
+                else:
+                    cur = row['x'] if kind == 'shift' else row['r'] + row['root']
+                    for j, (a, b_) in enumerate(zip(g, cur)):
+                        if not abs(a - b_) <= 1e-8 * max(1.0, abs(b_)):
+                            found.append(f'operation {k} (transform.inv(node_heights[n:])): element {j} = {a} but the parameter '
+                                         f'value in force is {b_}')
+                            return
+
+        try:
+            ip_execute(topology, n, kind, hist, torch.tensor(Sf, dtype=torch.float64), value, on_read)
+        except Exception as e:
+            if focus in (None, 'raises') and not found:
+                found.append(f'raises {type(e).__name__}: {e}')
+        if found:
+            return True, f'history [{ip_show(hist)}] (after the initial assignment): {found[0]}', ip_show(hist)
+    return False, 'agree', None
+
+
+def inplace_task(task, tr):
+    from torchtree.core import parameter as tp
+    from torchtree.evolution import tree_height_transform as tht
+    from torchtree.evolution import tree_model as tm
+
+    _, topology, n, kind, batched, pattern, chunk, sorted_times = task
+    cls = tm.ReparameterizedTimeTreeModel
+    tcls = tht.DifferenceNodeHeightTransform if kind == 'shift' else tht.GeneralNodeHeightTransform
+    tr.fn(cls.__init__, cls.node_heights.fget, cls.update_node_heights, cls._call, cls.handle_parameter_changed,
+          tm.TimeTreeModel.branch_lengths, tm.CallableModel.__call__, tcls._call, tcls._inverse, tcls.log_abs_det_jacobian,
+          tp.Parameter.fire_parameter_changed, tp.Parameter.copy_, tp.ViewParameter.tensor.fset,
+          tp.ViewParameter.handle_parameter_changed)
+    if kind == 'ratio':
+        tr.fn(tp.CatParameter.handle_parameter_changed, tp.CatParameter.update)
+    tr.bounds['in-place histories'] = (
+        'after the initial assignment, ALL sequences of exactly 3 (quick; thorough n>=4) / 4 (thorough, caterpillar n=3) operations that '
+        'end in a read (every read of a history is checked, so shorter histories are covered as prefixes), over reads '
+        '{branch_lengths(), node_heights, model(), transform.inv(node_heights[n:])} and, per Parameter, the writes {tensor = v; '
+        'tensor[...] = v; tensor[..., a:b] = v; tensor.add_(d); tensor.mul_(f); tensor.mul_(0.5).add_(d); tensor[..., a:b].add_(d); '
+        'tensor.copy_(v); Parameter.copy_(v); ViewParameter(parameter, a:b).tensor = v}, every in-place one followed by '
+        'fire_parameter_changed() (the ViewParameter setter fires itself); models: increments (one Parameter), ratios + root '
+        'height as two Parameters joined by from_json in a CatParameter, ONE Parameter passed as ratios_root_height to the public '
+        'constructor; no transform.inv call is made except where the history says so; fresh symbols per write. '
+        'quick: caterpillar n=3 with sample shapes [] and [2], caterpillar + balanced n=4 with shape []; sampling times: every '
+        'ordering for increments and for n=3 / shape [], the single ordering s0<=s1<=... for ratios with n=4 or shape [2]. '
+        'thorough: every ordering of the sampling times; length 4 on caterpillar n=3; all n=3 topologies and caterpillar + '
+        'balanced n=4 with shapes [] and [2], the other 13 topologies n=4 with the skeleton read-write-read, caterpillar + '
+        'balanced n=5 with read-write-read and write-read-read')
+    tr.assumptions.add('in-place histories: every in-place write is announced with fire_parameter_changed() before the next read '
+                       '(an unannounced in-place edit notifies nobody by design and stays outside); a write never changes the '
+                       'sample shape; in-place steps keep the parameters valid (increments and root-height steps positive, '
+                       'ratio steps inside (0,1))')
+    tr.assumptions.add('in-place histories, increments: max over the two children is built as ite(a<=b, b, a) '
+                       '(symtorch/ext_c06.py) instead of one path region per decision; exact on the whole domain')
+    hists = ip_histories(kind, n, pattern, chunk)
+    label = (f'in-place history {kind} topology={cm.to_newick(topology)} skeleton={pattern} sample shape={[2] if batched else []}'
+             + (' sampling times s0<=s1<=...' if sorted_times else '') + (f' part {chunk[0] + 1}/{chunk[1]}' if chunk else ''))
+    body = ip_body(topology, n, kind, batched, hists, tr)
+    W, tags = ip_variables(n, kind, pattern, batched)
+    body.domain = ip_domain(n, tags, sorted_times)
+    # increments: products of symbols under nested ite - cvc5 closes these at once, z3 4.8 spends its first slot on them
+    ex = Explorer(W, body.domain, body, tr, max_regions=200, timeout=30.0, label=label, deadline=time.time() + 900,
+                  solvers=('cvc5', 'z3', 'z3new') if kind == 'shift' else ('z3', 'cvc5', 'z3new'))
+    out = ex.run()
+    for s in out.region_samples[:1]:
+        s['case'] = label
+        tr.sample(s)
+    extra = {'topology': cm.to_newick(topology), 'n': n, 'kind': kind, 'skeleton': pattern, 'batched': batched, 'chunk': chunk,
+             'sorted_times': sorted_times}
+    history_verdicts(out, body.state['failed'], lambda vals, focus: ip_replay(topology, n, kind, batched, hists, W, vals, focus),
+                     tr, label, extra, IP_READ_NAME)
+
+
+def inplace_tasks(tier):
+    """(topology, n, skeletons, sample shapes); only a skeleton with a read BEFORE a write can see a stale identity-keyed
+    memo, W..R skeletons exercise the flags / CatParameter bookkeeping under mixed write kinds"""
+    ts = []
+    if tier == 'quick':
+        cases = [(cm.caterpillar(3), 3, h_patterns(3), (False, True)),
+                 (cm.caterpillar(4), 4, h_patterns(3), (False,)), (cm.balanced(4), 4, h_patterns(3), (False,))]
+    else:
+        cases = [(cm.caterpillar(3), 3, h_patterns(4), (False, True))]
+        cases += [(t, 3, h_patterns(3), (False, True)) for t in cm.rooted_topologies(3)]
+        cases += [(t, 4, h_patterns(3), (False, True)) for t in (cm.caterpillar(4), cm.balanced(4))]
+        cases += [(t, 4, ('RWR',), (False,)) for t in cm.rooted_topologies(4) if t not in (cm.caterpillar(4), cm.balanced(4))]
+        cases += [(cm.caterpillar(5), 5, ('RWR', 'WRR'), (False,)), (cm.balanced(5), 5, ('RWR', 'WRR'), (False,))]
+    for topo, n, patterns, shapes in cases:
+        for kind in ('shift', 'ratio', 'ratio1'):
+            for batched in shapes:
+                # ratios: every ordering of the sampling times is a path region of update_bounds and every region re-runs
+                # every history, although nothing an in-place write touches depends on the ordering; the quick tier
+                # keeps all orderings for n=3 / shape [] and one ordering otherwise (increments: no regions at all)
+                sorted_times = tier == 'quick' and kind != 'shift' and (n > 3 or batched)
+                for pattern in patterns:
+                    # the write x write products are the long ones: split them so that no task dominates the wall time
+                    m = 1 if kind == 'shift' or sorted_times else {0: 1, 1: 1, 2: 2 if n == 3 else 4}.get(pattern.count('W'), 8)
+                    for i in range(m):
+                        ts.append(('inplace', topo, n, kind, batched, pattern, (i, m) if m > 1 else None, sorted_times))
+    return ts
 
 
 def history_tasks(tier):
@@ -859,7 +1403,19 @@ def tasks_for(tier):
         for move in ('cpu', 'to'):
             ts.append(('device', cm.balanced(4), 4, kind, move))
             ts.append(('device', cm.caterpillar(3), 3, kind, move))
-    return ts + history_tasks(tier)
+    ts = history_tasks(tier) + inplace_tasks(tier) + ts
+
+    def weight(task):
+        # longest first (rough): the pool hands tasks out in order and the last ones decide the wall time
+        if task[0] == 'history':
+            return 10 if (task[2] >= 4 and task[3] == 'shift') else 4
+        if task[0] == 'inplace':
+            return (8 if task[5].count('W') > 1 else 6) if (task[3] != 'shift' and not task[7]) else 3
+        if task[0] == 'tree':
+            return 5 if (task[2] >= 4 and task[3] == 'shift') else 1
+        return 1
+
+    return sorted(ts, key=lambda task: -weight(task))
 
 
 def body(chk):
@@ -870,7 +1426,13 @@ def body(chk):
                        '(reads of branch_lengths()/node_heights/model() interleaved with every notifying write route, fresh '
                        'symbols per write, with and without a change of the sample shape) are enumerated up to a bound and '
                        'every read is proved equal to the recursion on the parameters in force (a stale cache still mentions '
-                       'the old symbols), with a solver vacuity guard per write')
+                       'the old symbols), with a solver vacuity guard per write; in-place histories do the same for the optimiser '
+                       'idiom (the tensor OBJECT of a Parameter is kept and written into: index write, add_/mul_/copy_, Parameter.copy_, '
+                       'ViewParameter setter, then fire_parameter_changed()) on increments, on ratios + root height as two Parameters '
+                       'and on ONE Parameter given to the public constructor, with transform.inv(node_heights[n:]) as a fourth kind of '
+                       'read: the harness keeps a functional copy of every parameter, each read is proved equal to the recursion on '
+                       'that copy and to a freshly built model handed the copy (identity-keyed memoisation of the model under test '
+                       'behaves as with real tensors because an in-place write keeps the SymTensor object)')
     chk.total.assumptions |= {'transform and history tasks: sampling times are injected as a symbolic tensor after construction; how dates '
                               'become sampling times is decided by the dates sub-check (CrossHair) for symbolic dates',
                               'cuda() is exercised through cpu()/to(dtype): no GPU in the sandbox'}
